@@ -470,6 +470,108 @@ def lerp_cases(T):
     return cs
 
 
+def dualquat_cases(T):
+    """gtx/dual_quaternion: lerp(x, y, a) is the affine blend x (1 - a) + y (+-a) of all eight components, the sign of the second weight being the
+    sign of dot(x.real, y.real) (so a = 0 returns x, a = 1 returns x (1 - 1) +- y = +-y on the hemisphere of x); normalize divides all eight
+    components by |real|; identity is (1,0,0,0 ; 0,0,0,0)."""
+    cs = []
+    sc = G.scalar(T)
+    tg = sc.tag
+    dq = G.dualquat(T)
+    keys = sorted(dq.lanes, key=lambda l_: dq.lanes[l_])
+    k = K('dq_lerp_%s' % tg, [Par('o', dq, False), Par('x', dq), Par('y', dq), Par('a', sc)], '*o = lerp(*x, *y, *a);', CFG)
+
+    def judge(ctx):
+        err = ctx.compile_error(k)
+        if err:
+            return [R.ob('dualquat_lerp<%s>' % tg, 'existence', R.REFUTED, 'cannot be instantiated: ' + err, kernel=k.source())]
+        lanes = L.out_lanes(ctx, k, dq)
+        X = {l_: L.in_atom('x', dq, l_) for l_ in keys}
+        Y = {l_: L.in_atom('y', dq, l_) for l_ in keys}
+        a = L.in_atom('a', sc, 0)
+        dot = sum((X[('real', c)] * Y[('real', c)] for c in 'xyzw'), Poly())
+        res = []
+        seen = {}
+        signs = set()
+        for asg, infos, got, cx in P.decision_paths(lambda asg: P.DecisionCtx(asg), lambda cx: tuple(cx.fpoly(lanes[l_]) for l_ in keys)):
+            sg = None
+            for at, v in asg.items():
+                if at[0] == 'pair':
+                    e_ = infos[at][0] - infos[at][1]
+                    if e_ == dot:
+                        sg = -1 if v == 'lt' else 1
+                    elif e_ == -dot:
+                        sg = -1 if v == 'gt' else 1
+            key = tuple(g.key() for g in got) + (sg,)
+            if key in seen:
+                continue
+            seen[key] = 1
+            rg = ', '.join('%s %s %s' % (P.show_poly(infos[at][0], limit=3), '<' if v == 'lt' else '>', P.show_poly(infos[at][1], limit=3)) for at, v in asg.items() if at[0] == 'pair')[:200]
+            for i, l_ in enumerate(keys):
+                oid = 'dualquat_lerp<%s>.path%d[%s.%s]' % (tg, len(seen), l_[0], l_[1])
+                if sg is None:
+                    # the path does not fix the hemisphere: the result must not depend on it, i.e. both signs would have to give the lane (impossible unless a y == 0)
+                    res.append(R.ob(oid, 'dualquat', R.UNDECIDED, 'the path [%s] does not test dot(x.real, y.real): the sign of the second weight cannot be the hemisphere' % rg, kernel=k.source()))
+                    continue
+                want = X[l_] * (ONE - a) + Y[l_] * a.scale(sg)
+                d = got[i] - want
+                if d.is_zero():
+                    res.append(R.ob(oid, 'dualquat', R.PROVED, 'x (1 - a) %s y a  where %s' % ('-' if sg < 0 else '+', rg), kernel=k.source()))
+                    continue
+                st, wit = R.UNDECIDED, ''
+                cons = [(v, infos[at][0] - infos[at][1]) for at, v in asg.items() if at[0] == 'pair']
+                if P.transparent(d) and all(P.transparent(e_) for _, e_ in cons):
+                    env = P.find_witness(cons[0][0], cons[0][1], [d], extra=cons[1:], tries=800) if cons else P.find_witness('gt', ONE, [d], tries=200)
+                    if env is not None:
+                        st, wit = R.REFUTED, ' -- e.g. at %s the lane differs from the blend by %s' % (P.show_env(env), P.eval_poly(d, env))
+                res.append(R.ob(oid, 'dualquat', st, 'is %s, not x (1 - a) %s y a, where %s%s' % (P.show_poly(got[i], limit=4), '-' if sg < 0 else '+', rg, wit), kernel=k.source()))
+            signs.add(sg)
+        res.append(R.ob('dualquat_lerp<%s>.hemispheres' % tg, 'dualquat', R.PROVED if signs == {1, -1} else R.UNDECIDED,
+                        'both hemispheres are distinguished (%d paths)' % len(seen) if signs == {1, -1} else 'paths found for the signs %s only' % sorted(signs, key=str), kernel=k.source()))
+        return res
+    cs.append(R.Case('dualquat_lerp<%s>' % tg, [k], judge))
+
+    kn = K('dq_normalize_%s' % tg, [Par('o', dq, False), Par('x', dq)], '*o = normalize(*x);', CFG)
+    ki = K('dq_identity_%s' % tg, [Par('o', dq, False)], '*o = dual_quat_identity<%s, glm::defaultp>();' % sc.cpp, CFG)
+
+    def judge_n(ctx):
+        res = []
+        for kern in (kn, ki):
+            err = ctx.compile_error(kern)
+            if err:
+                res.append(R.ob('dualquat.%s<%s>' % (kern.name, tg), 'existence', R.REFUTED, 'cannot be instantiated: ' + err, kernel=kern.source()))
+        if res:
+            return res
+        pc = P.PCtx()
+        lanes = L.out_lanes(ctx, kn, dq)
+        X = {l_: L.in_atom('x', dq, l_) for l_ in keys}
+        n2 = sum((X[('real', c)] * X[('real', c)] for c in 'xyzw'), Poly())
+        for l_ in keys:
+            oid = 'dualquat_normalize<%s>[%s.%s]' % (tg, l_[0], l_[1])
+            try:
+                g = pc.fpoly(lanes[l_])
+            except (P.NonFinite, P.TooBig, ValueError) as e:
+                res.append(R.ob(oid, 'dualquat', R.UNDECIDED, 'no normal form: %r' % e, kernel=kn.source()))
+                continue
+            # g == x / sqrt(n2)  <=>  g^2 n2 == x^2 and g x >= 0 (same sign: g / x is a positive function); decided through the square
+            d = P.reduce_sqrt(P.reduce_inv(g * g * n2 - X[l_] * X[l_]))
+            lin = P.reduce_sqrt(P.reduce_inv(g * Poly.atom(('sqrt', ('P', n2))) - X[l_]))
+            ok = lin.is_zero()
+            if ok:
+                res.append(R.ob(oid, 'dualquat', R.PROVED, 'component / |real|', kernel=kn.source()))
+            else:
+                st = R.REFUTED if (P.transparent(d) and L.lanes_only(d) and not d.is_zero()) else R.UNDECIDED
+                res.append(R.ob(oid, 'dualquat', st, 'lane * |real| - component = %s' % P.show_poly(lin, limit=4), kernel=kn.source()))
+        li = L.out_lanes(ctx, ki, dq)
+        for l_ in keys:
+            want = tm.fconst(sc.elem * 8, 1.0 if l_ == ('real', 'w') else 0.0)
+            res.append(R.ob('dual_quat_identity<%s>[%s.%s]' % (tg, l_[0], l_[1]), 'dualquat', R.PROVED if li[l_] is want else R.REFUTED if li[l_].op == 'const' else R.UNDECIDED,
+                            'is %s' % tm.show(li[l_], 3), kernel=ki.source()))
+        return res
+    cs.append(R.Case('dualquat_normalize<%s>' % tg, [kn, ki], judge_n))
+    return cs
+
+
 # ---- memory layout / constructor-order configurations ------------------------------------------------------------------------------------------------
 
 CFG_WXYZ = Cfg('slerp_wxyz', headers=HDR, defines=('GLM_ENABLE_EXPERIMENTAL', 'GLM_FORCE_QUAT_DATA_WXYZ'))
@@ -522,6 +624,7 @@ def cases(tier):
         cs.append(interp_case('mix', T, negate=False))
         cs.append(interp_case('shortMix', T))
         cs += lerp_cases(T)
+        cs += dualquat_cases(T)
     cs += layout_cases(tier)
     cs += canaries()
     return cs
